@@ -91,6 +91,15 @@ func opsFacts(f *hc.Facts) {
 		rev := callsOf(fd, "reverseBytes")
 		emitList(side.pre+"ReverseArg", first(rev), len(rev) == 1 && len(rev[0]) == 1, "reverseBytes(…) in crypto."+side.fn)
 	}
+	// every use of the random source (callee, destination): the model is chunking-independent only if all
+	// of them are io.ReadFull
+	for _, x := range []struct{ name, fn string }{{"padRandomReads", "RSAPad"}, {"hashedRandomReads", "RSAEncryptHashed"}} {
+		if l := randomReads(f, x.fn, "randomSource"); l != "" {
+			f.Raw(fmt.Sprintf("def %s : List (String × String) := %s -- every call of crypto.%s that takes the random source: (callee, destination)", x.name, l, x.fn))
+		} else {
+			f.Missing(x.name, "crypto."+x.fn+" not found")
+		}
+	}
 	enc := f.FuncDecl("crypto", "RSAPad")
 	// appends: append(dst, src...) in source order: (dst, src)
 	var apps []string
@@ -156,6 +165,42 @@ func opsFacts(f *hc.Facts) {
 	} else {
 		f.Missing("decRsaDst", "rsaDecrypt(data, key, dst) in crypto.DecodeRSAPad")
 	}
+}
+
+// randomReads lists every call in fn that touches the random source parameter: (callee, destination).
+func randomReads(f *hc.Facts, fn, param string) string {
+	fd := f.FuncDecl("crypto", fn)
+	if fd == nil || fd.Body == nil {
+		return ""
+	}
+	var out []string
+	ast.Inspect(fd.Body, func(n ast.Node) bool {
+		c, ok := n.(*ast.CallExpr)
+		if !ok {
+			return true
+		}
+		if sel, ok := c.Fun.(*ast.SelectorExpr); ok {
+			if id, ok := sel.X.(*ast.Ident); ok && id.Name == param { // randomSource.Read(dst)
+				dst := ""
+				if len(c.Args) > 0 {
+					dst = f.Src(c.Args[0])
+				}
+				out = append(out, fmt.Sprintf("(%q, %q)", f.Src(c.Fun), dst))
+				return true
+			}
+		}
+		for i, a := range c.Args {
+			if id, ok := a.(*ast.Ident); ok && id.Name == param {
+				dst := ""
+				if i+1 < len(c.Args) {
+					dst = f.Src(c.Args[i+1])
+				}
+				out = append(out, fmt.Sprintf("(%q, %q)", f.Src(c.Fun), dst))
+			}
+		}
+		return true
+	})
+	return "[" + strings.Join(out, ", ") + "]"
 }
 
 func first(x [][]ast.Expr) []ast.Expr {
